@@ -66,6 +66,7 @@ type cmpWorld struct {
 	m      *mvcc
 	x      *mc.SeqOut
 	prop   string
+	b2     backend.Backend // C08: a second, long-lived node over the same store that only reads (a follower)
 	record uint64  // expected stored compaction record (0 = none yet)
 	creqs  []int64 // every compaction request made so far (part of the canonical state: an
 	// implementation may remember requests, not only their effect)
@@ -84,6 +85,11 @@ func newCmpWorld(cfg cmpCfg, prop string, x *mc.SeqOut) *cmpWorld {
 	w.b.SetCurrentRevision(base)
 	vrt.Quiesce()
 	cw := &cmpWorld{world: w, cfg: cfg, m: newMvcc(), x: x, prop: prop}
+	if prop == "C08" {
+		cw.b2 = backend.NewBackend(w.kv, backend.Config{Prefix: "/r", Identity: "n2", WatchCacheSize: 16, EnableEtcdCompatibility: true, SkippedPrefixes: cfg.skipped}, hx.NopMetrics{})
+		cw.b2.SetCurrentRevision(base)
+		vrt.Quiesce()
+	}
 	cw.inRange = func(key string) bool {
 		if !(key >= "/r/" && key < "/r0") {
 			return false
@@ -192,31 +198,51 @@ func (w *cmpWorld) checkFloor() {
 	if rec, ok := w.storedRecord(); w.m.floor != 0 && (!ok || rec != w.m.floor) {
 		w.fail("record-below-floor", "the stored compaction revision is %d (present=%v) but a compaction at %d has been accepted", int64(rec)-base, ok, int64(w.m.floor)-base)
 	}
+	w.checkFloorOn(w.b, "")
+	if w.b2 != nil {
+		// the follower adopts the leader's read revision before it reads (what the revision syncer does)
+		w.b2.SetCurrentRevision(w.b.GetCurrentRevision())
+		w.checkFloorOn(w.b2, "|second-node")
+	}
+}
+
+// peekSecondNode lets the second node serve one ordinary read in the current state (whatever it
+// remembers from it must not make it serve data below a floor accepted later).
+func (w *cmpWorld) peekSecondNode() {
+	if w.b2 == nil {
+		return
+	}
+	w.b2.SetCurrentRevision(w.b.GetCurrentRevision())
+	w.b2.List(bg, &proto.RangeRequest{Key: []byte("/r/"), End: []byte("/r0")})
+	vrt.Quiesce()
+}
+
+func (w *cmpWorld) checkFloorOn(node backend.Backend, tag string) {
 	committed := w.b.GetCurrentRevision()
 	for r := uint64(base + 1); r <= committed; r++ {
 		w.x.Evals += 3
 		below := r < w.m.floor
 		want, _ := w.m.list("/r/", "/r0", r, 0)
-		l, err := w.b.List(bg, &proto.RangeRequest{Key: []byte("/r/"), End: []byte("/r0"), Revision: r})
+		l, err := node.List(bg, &proto.RangeRequest{Key: []byte("/r/"), End: []byte("/r0"), Revision: r})
 		if below && err == nil {
-			w.fail("served-below-floor|list", "List at revision %d answered %s although a compaction at revision %d was accepted", int64(r)-base, kvsString(l.Kvs), int64(w.m.floor)-base)
+			w.fail("served-below-floor|list"+tag, "List at revision %d answered %s although a compaction at revision %d was accepted", int64(r)-base, kvsString(l.Kvs), int64(w.m.floor)-base)
 		} else if !below && err != nil {
-			w.fail("refused-at-or-above-floor|list", "List at revision %d (floor %d) failed: %v", int64(r)-base, int64(w.m.floor)-base, err)
+			w.fail("refused-at-or-above-floor|list"+tag, "List at revision %d (floor %d) failed: %v", int64(r)-base, int64(w.m.floor)-base, err)
 		}
-		ll, err := w.b.List(bg, &proto.RangeRequest{Key: []byte("/r/"), End: []byte("/r0"), Revision: r, Limit: 1})
+		ll, err := node.List(bg, &proto.RangeRequest{Key: []byte("/r/"), End: []byte("/r0"), Revision: r, Limit: 1})
 		if below && err == nil {
-			w.fail("served-below-floor|limited-list", "limited List at revision %d answered %s although a compaction at revision %d was accepted", int64(r)-base, kvsString(ll.Kvs), int64(w.m.floor)-base)
+			w.fail("served-below-floor|limited-list"+tag, "limited List at revision %d answered %s although a compaction at revision %d was accepted", int64(r)-base, kvsString(ll.Kvs), int64(w.m.floor)-base)
 		} else if !below && err != nil {
-			w.fail("refused-at-or-above-floor|limited-list", "limited List at revision %d (floor %d) failed: %v", int64(r)-base, int64(w.m.floor)-base, err)
+			w.fail("refused-at-or-above-floor|limited-list"+tag, "limited List at revision %d (floor %d) failed: %v", int64(r)-base, int64(w.m.floor)-base, err)
 		}
-		kvs, serr, nterm := w.stream("/r/", "/r0", r)
+		kvs, serr, nterm := streamOn(node, "/r/", "/r0", r)
 		if nterm != 1 {
-			w.fail("stream-terminator", "stream at revision %d ended with %d terminators", int64(r)-base, nterm)
+			w.fail("stream-terminator"+tag, "stream at revision %d ended with %d terminators", int64(r)-base, nterm)
 		}
 		if below && (serr == "" || len(kvs) > 0) {
-			w.fail("served-below-floor|stream", "streamed range at revision %d delivered %s, error %q, although a compaction at revision %d was accepted", int64(r)-base, kvsString(kvs), serr, int64(w.m.floor)-base)
+			w.fail("served-below-floor|stream"+tag, "streamed range at revision %d delivered %s, error %q, although a compaction at revision %d was accepted", int64(r)-base, kvsString(kvs), serr, int64(w.m.floor)-base)
 		} else if !below && serr != "" {
-			w.fail("refused-at-or-above-floor|stream", "streamed range at revision %d (floor %d) failed: %s", int64(r)-base, int64(w.m.floor)-base, serr)
+			w.fail("refused-at-or-above-floor|stream"+tag, "streamed range at revision %d (floor %d) failed: %s", int64(r)-base, int64(w.m.floor)-base, serr)
 		}
 		_ = want
 	}
@@ -224,7 +250,11 @@ func (w *cmpWorld) checkFloor() {
 
 // stream drains ListByStream.
 func (w *world) stream(start, end string, rev uint64) (kvs []*proto.KeyValue, errStr string, terminators int) {
-	ch, err := w.b.ListByStream(bg, hx.Coder.EncodeObjectKey([]byte(start), 0), hx.Coder.EncodeObjectKey([]byte(end), 0), rev)
+	return streamOn(w.b, start, end, rev)
+}
+
+func streamOn(b backend.Backend, start, end string, rev uint64) (kvs []*proto.KeyValue, errStr string, terminators int) {
+	ch, err := b.ListByStream(bg, hx.Coder.EncodeObjectKey([]byte(start), 0), hx.Coder.EncodeObjectKey([]byte(end), 0), rev)
 	if err != nil {
 		return nil, err.Error(), 1
 	}
@@ -378,6 +408,7 @@ func c08Run(tier string) func(cfgIdx int, hist []int) *mc.SeqOut {
 			if !w.step(alpha[a]) {
 				return out
 			}
+			w.peekSecondNode()
 			if i >= len(hist)-1 {
 				w.checkFloor()
 				if len(out.Viols) > 0 {
@@ -415,7 +446,7 @@ func init() {
 		ID:    "C08",
 		Level: "model_checking",
 		Rule: "explicit-state BFS over sequences of writes on 2 keys and compaction requests (revision 0, every revision up to the depth, above the current revision; hence increasing, repeated, decreasing orders), de-duplicated on model state + rank-normalised storage; " +
-			"after every step List, limited List and streamed range are issued at every revision from the first to the committed one: refused below the highest accepted compaction revision, served at or above it; the stored compaction record must equal that floor",
+			"after every step List, limited List and streamed range are issued at every revision from the first to the committed one: refused below the highest accepted compaction revision, served at or above it; the stored compaction record must equal that floor; the same reads are also issued through a second, long-lived node over the same store (a follower that adopted the leader's read revision and served an ordinary read after every step)",
 		Assume: []string{"single client, default schedule, quiescence after every request", "in-memory engine (thorough: badger and tikv-mock at depth 3)"},
 		Exec:   func(j *mc.Job) *mc.JobResult { return mc.SeqExec(j, c08Run(j.Tier)) },
 		Drive: func(c *mc.Ctx) {
